@@ -79,10 +79,10 @@ theorem computeErrorScaled_neg {F p eb} (lay : Layout F p eb) (q : Int) (hi : Na
 /-! ## the fall-back answer as an estimate -/
 
 /-- what an invalid-marked answer `fp` of `compute_float` knows about the exact value `num/den`: its mantissa is
-normalised, and with `K`, `S` the exponent field and shift that rounding the un-biased estimate to the float format
+normalised, its un-biased exponent is small, and with `K`, `S` the exponent field and shift that rounding the un-biased estimate to the float format
 uses, `mant·2^K ≤ (num/den)·2^L·2^S < (mant + 4)·2^K` (see `Proof.LemireFallback.bracket_of_estimate`). -/
 def EstOK (F : FTy) (p : Nat) (fp : ExtendedFloat80) (num den : Nat) : Prop :=
-  2 ^ 63 ≤ fp.mant ∧ fp.mant < 2 ^ 64 ∧
+  2 ^ 63 ≤ fp.mant ∧ fp.mant < 2 ^ 64 ∧ -(4096 : Int) ≤ fp.exp - invalidFp ∧ fp.exp - invalidFp ≤ 4096 ∧
   fp.mant * 2 ^ ((fp.exp - invalidFp) + 64 - p - 1).toNat * den ≤
     num * 2 ^ L F.fmt * 2 ^ shiftOf p (fp.exp - invalidFp) ∧
   num * 2 ^ L F.fmt * 2 ^ shiftOf p (fp.exp - invalidFp) <
@@ -203,17 +203,20 @@ theorem fb_eq_neg (e b lz hilz K S p Lf : Nat) (Cb P : Int) (hL : (Lf : Int) = C
     128 + (Lf + S) = (hilz + K + e) + (lz + (b + 127)) := by omega
 
 /-- the fall-back answer on a row `q ≥ 28` is an estimate of `w·10^q` -/
-theorem estOK_pos {F p eb} (lay : Layout F p eb) (q b lz hi w : Nat) (hb65 : 65 ≤ b)
-    (hhi : hi < 2 ^ 64) (hhi62 : 2 ^ 62 ≤ hi) (hpow : power (wrapI32 (q : Int)) = 62 + (q : Int) + (b : Int))
+theorem estOK_pos {F p eb} (lay : Layout F p eb) (q b lz hi w : Nat) (hb65 : 65 ≤ b) (hb716 : b ≤ 716)
+    (hq308 : q ≤ 308) (hlz : lz ≤ 63) (hhi : hi < 2 ^ 64) (hhi62 : 2 ^ 62 ≤ hi) (hpow : power (wrapI32 (q : Int)) = 62 + (q : Int) + (b : Int))
     (hlow : hi * (2 ^ 64 * (2 ^ 64 * 2 ^ (b - 128))) ≤ w * 2 ^ lz * 5 ^ q * 2 ^ (128 - b))
     (hupp : w * 2 ^ lz * 5 ^ q * 2 ^ (128 - b) < (hi + 2) * (2 ^ 64 * (2 ^ 64 * 2 ^ (b - 128)))) :
     EstOK F p (computeErrorScaled F (q : Int) hi lz) (w * 10 ^ q) 1 := by
   obtain ⟨hilz, hh1, hm, hm1, hm2, he⟩ := ces_fields F (q : Int) hi lz hhi hhi62
   have hLeq : (L F.fmt : Int) = F.C.exponentBias - 1 := by
     rw [L_eq lay, lay.bias]; have := lay.hL127; omega
+  have hbias := lay.bias
+  have hb1024 := lay.hb1024
+  have hp64 := lay.hp64
   unfold EstOK
   rw [hm, he]
-  refine ⟨hm1, hm2, ?_, ?_⟩
+  refine ⟨hm1, hm2, by rw [hpow, hbias]; omega, by rw [hpow, hbias]; omega, ?_, ?_⟩
   all_goals
     rw [show power (wrapI32 (q : Int)) + F.C.exponentBias - (hilz : Int) - (lz : Int) - 62 + invalidFp - invalidFp =
       power (wrapI32 (q : Int)) + F.C.exponentBias - (hilz : Int) - (lz : Int) - 62 by omega]
@@ -248,8 +251,8 @@ theorem estOK_pos {F p eb} (lay : Layout F p eb) (q b lz hi w : Nat) (hb65 : 65 
       _ = (hi * 2 ^ hilz + 4) * 2 ^ K * 1 := by ring
 
 /-- the fall-back answer on a row `−e ≤ −28` is an estimate of `w / 10^e` -/
-theorem estOK_neg {F p eb} (lay : Layout F p eb) (e b lz hi w : Nat)
-    (hhi : hi < 2 ^ 64) (hhi62 : 2 ^ 62 ≤ hi)
+theorem estOK_neg {F p eb} (lay : Layout F p eb) (e b lz hi w : Nat) (hb795 : b ≤ 795) (he342 : e ≤ 342)
+    (hlz : lz ≤ 63) (hhi : hi < 2 ^ 64) (hhi62 : 2 ^ 62 ≤ hi)
     (hpow : power (wrapI32 (-(e : Int))) = 63 - (e : Int) - (b : Int))
     (hlow : hi * (2 ^ 64 * (2 ^ 64 * 5 ^ e)) ≤ w * 2 ^ lz * 2 ^ (b + 127))
     (hupp : w * 2 ^ lz * 2 ^ (b + 127) < (hi + 2) * (2 ^ 64 * (2 ^ 64 * 5 ^ e))) :
@@ -257,9 +260,12 @@ theorem estOK_neg {F p eb} (lay : Layout F p eb) (e b lz hi w : Nat)
   obtain ⟨hilz, hh1, hm, hm1, hm2, he⟩ := ces_fields F (-(e : Int)) hi lz hhi hhi62
   have hLeq : (L F.fmt : Int) = F.C.exponentBias - 1 := by
     rw [L_eq lay, lay.bias]; have := lay.hL127; omega
+  have hbias := lay.bias
+  have hb1024 := lay.hb1024
+  have hp64 := lay.hp64
   unfold EstOK
   rw [hm, he]
-  refine ⟨hm1, hm2, ?_, ?_⟩
+  refine ⟨hm1, hm2, by rw [hpow, hbias]; omega, by rw [hpow, hbias]; omega, ?_, ?_⟩
   all_goals
     rw [show power (wrapI32 (-(e : Int))) + F.C.exponentBias - (hilz : Int) - (lz : Int) - 62 + invalidFp - invalidFp =
       power (wrapI32 (-(e : Int))) + F.C.exponentBias - (hilz : Int) - (lz : Int) - 62 by omega]
@@ -350,7 +356,7 @@ theorem computeFloat_trunc_pos {F p eb sm lg rlo rhi} (LL : LemLayout F p eb sm 
       obtain ⟨hhi62, hlow, hupp⟩ := fallback_bounds (w * 2 ^ lz) hi5 lo5 lo hi (w * 2 ^ lz * 5 ^ q * 2 ^ (128 - b))
         (2 ^ (b - 128)) hwn1 hwn2 hhi5n hhi hzlow (hzup.imp id (fun h => ⟨h.2.1, h.2.2⟩)) (Nat.two_pow_pos _)
         hNlo hNhi hall
-      exact estOK_pos lay q b lz hi w hb65 hhi hhi62 hpow hlow hupp
+      exact estOK_pos lay q b lz hi w hb65 hb716 h308 hlz hhi hhi62 hpow hlow hupp
   · have hc : (!false && lo == litAllOnes && !(decide (litSafeLo ≤ (q : Int)) && decide ((q : Int) ≤ litSafeHi))) = false := by
       by_cases hl : lo = litAllOnes
       · have hq55 : q ≤ 55 := by
